@@ -11,15 +11,16 @@ VERIF = os.path.dirname(os.path.dirname(os.path.abspath(__file__)))
 
 
 def run_batch(prop, n, workers, seed, hashseed=None, evidence_backup=True):
-    fd, path = tempfile.mkstemp(prefix="bbsim-log-", dir="/dev/shm")
+    from .procs import scratch_top
+    fd, path = tempfile.mkstemp(prefix="bbsim-log-", dir=scratch_top())
     os.close(fd)
     env = dict(os.environ)
     env.pop("BBSIM_REEXEC", None)
     env["VERIF_SEED"] = str(seed)
     env["BBSIM_DUMP_LOGS"] = path
+    env["BBSIM_OUT_DIR"] = os.path.join(scratch_top(), "selftest-out")
     if hashseed is not None:
-        env["PYTHONHASHSEED"] = str(hashseed)
-        env["BBSIM_REEXEC"] = "1"          # keep the forced controller hash seed
+        env["BBSIM_FORCE_HASHSEED"] = str(hashseed)
     p = subprocess.run([sys.executable, "-m", "bbsim.main", prop, "--runs", str(n), "--workers", str(workers)],
                        cwd=VERIF, env=env, capture_output=True, text=True)
     try:
@@ -48,7 +49,10 @@ def main(a, seed):
             same_twice = a16 == b16
             same_w4 = a16 == c4
             same_w1 = a16[:len(d1)] == d1
-            plans_hs = [r[:2] for r in a16] == [r[:2] for r in e_hs]
+            # under another controller hash seed the GENERATED plans must be identical (the
+            # generator must not depend on set/dict order); fault instants resolved by a dry
+            # run of the code under test, and outcomes that print sets, may legitimately differ
+            plans_hs = [[r[0], r[4]] for r in a16] == [[r[0], r[4]] for r in e_hs]
             logs_hs = a16 == e_hs
             report[prop] = {"runs": len(a16), "exit_codes": [rc1, rc2, rc3, rc4, rc5],
                             "identical_logs_same_seed_twice": same_twice,
